@@ -36,14 +36,18 @@ def scn(fam, kind='-', d=0, co=False):
     return {'fam': fam, 'kind': kind, 'd': d, 'co': co}
 
 
-def scenarios(depth):
+def scenarios(depth, chain_depth=None):
+    """chain_depth: nesting depth of the families whose whole job is to follow futures resolving to futures
+    (P2K, UNW, COMP, RPC reply loop): cheap, and a one-level shortcut (e.g. kiwipy.chain instead of re-registering
+    unwrap) only shows from depth 3 on; the task-based families (CT, CONV) use `depth`."""
+    cd = max(depth, chain_depth or depth)
     out = []
     out += [scn('CT', 'ret'), scn('CT', 'raise')] + [scn('CT', 'await', d) for d in range(1, min(depth, 2) + 1)]
-    out += [scn('P2K', '-', d, True) for d in range(1, depth + 1)]
-    out += [scn('UNW', '-', d, True) for d in range(1, depth + 1)]
-    out += [scn('COMP', '-', d, True) for d in range(1, depth + 1)]
+    out += [scn('P2K', '-', d, True) for d in range(1, cd + 1)]
+    out += [scn('UNW', '-', d, True) for d in range(1, cd + 1)]
+    out += [scn('COMP', '-', d, True) for d in range(1, cd + 1)]
     out += [scn('CONV', 'ret', 0, True), scn('CONV', 'raise', 0, True)] + [scn('CONV', 'await', d, True) for d in range(1, depth + 1)]
-    out += [scn('RPC', 'ret'), scn('RPC', 'raise')] + [scn('RPC', 'await', d) for d in range(1, depth + 1)]
+    out += [scn('RPC', 'ret'), scn('RPC', 'raise')] + [scn('RPC', 'await', d) for d in range(1, cd + 1)]
     out += [scn('ACT', 'ret'), scn('ACT', 'raise')]
     return out
 
@@ -348,7 +352,8 @@ def proc_traces(nodes, edges, inits, max_handles, procs=None):
 def run_check(tier, seed):
     t0 = time.time()
     depth, max_ops, max_handles = (2, 3, 3) if tier == 'quick' else (4, 4, 6)
-    scns = scenarios(depth)
+    chain_depth = 3 if tier == 'quick' else depth
+    scns = scenarios(depth, chain_depth)
     listed = set(findings.deviations(PID))
     violations = 0
 
@@ -386,15 +391,16 @@ def run_check(tier, seed):
         'samples': g['samples'] + pt['samples'],
         'evaluations': g['paths'] + pt['runs'],
         'distinct_nontrivial': g['nontrivial'] + pt['validated'],
-        'rule': 'scenarios = adapter family x coroutine/callback kind x nesting depth 1..%d; in each the environment gives every pending future '
+        'rule': 'scenarios = adapter family x coroutine/callback kind x nesting depth 1..%d (1..%d for the chain-following families P2K, UNW, COMP, RPC); in each the environment gives every pending future '
                 'of the chain a value / an exception / a cancellation / the next future, at any level in any order, may cancel the '
                 'adapter\'s kiwi output first, interleaved in every way with the loop handles; CancellableAction: all run/cancel '
                 'histories of length <= %d.  A behaviour = one maximal path of the TLC state graph (distinct by construction); '
                 'non-trivial = the environment acted AND the adapter output got an outcome or a deviation clause was exercised.  '
                 'Process traces: every schedule with 0..N handles before each op; only distinct traces are counted, all of them '
-                'involve a control message and are counted non-trivial' % (depth, max_ops),
+                'involve a control message and are counted non-trivial' % (depth, chain_depth, max_ops),
         'exhaustive': True,
         'depth': depth,
+        'chain_depth': chain_depth,
         'scenarios': len(scns),
         'model_checking': mc_summ,
         'invariants': INVARIANTS + PROPERTIES,
@@ -408,7 +414,7 @@ def run_check(tier, seed):
         'fixes_modelled': list(FIXES),
     }
     assumptions = [
-        'bounded: nesting depth <= %d, one adapter instance per behaviour, CancellableAction histories of length <= %d' % (depth, max_ops),
+        'bounded: nesting depth <= %d (<= %d for P2K, UNW, COMP, RPC), one adapter instance per behaviour, CancellableAction histories of length <= %d' % (depth, chain_depth, max_ops),
         'the single-stepping loop (harness/vloop.py) realises asyncio semantics; its create_future() hands out asyncio.Future as production loops do; '
         'tasks are pure-python tasks so that every handle can be attributed',
         'one thread: kiwipy futures resolve synchronously in the resolving call, asyncio callbacks go through the loop; real cross-thread delivery '
